@@ -284,6 +284,9 @@ fn one_case(rng: &mut Rng, rep: &mut Report) {
             rep.count("commits_applied");
         }
         let e = Expect { world: &worlds[k], codes: &codes, hashes: &h.world.block_hashes, cleared: &cleared_so_far, universe: &universe, numbers: &numbers };
+        // the read-only path first (the &mut path below fills the cache as it reads)
+        report!("CacheDB(DatabaseRef)", guarded(|| check_dbref(&cdb, &e, loose)), k);
+        report!("CacheDB(DatabaseRef)", guarded(|| check_dbref(&cdb2, &e, loose)), k);
         report!("CacheDB<RefDB>", guarded(|| check_db(&mut cdb, &e, loose, None)), k);
         report!("CacheDB<CacheDB<RefDB>>", guarded(|| check_db(&mut cdb2, &e, loose, None)), k);
         report!("State<RefDB>", guarded(|| check_db(&mut st, &e, exact, None)), k);
